@@ -425,6 +425,20 @@ def search(ck, tu, tcs, maxsize, seed):
             if got[0] != "ok" or bool(got[1]) != e:
                 ck.finding("typechecks:%s" % name, "%s(%r) = %r, expected %r" % (name, v, got, e),
                            {"search": "typecheck", "fn": name, "arg": repr(v)})
+    # sum_except_batch on non-floating tensors (masks are uint8, indicators bool): the exact integer sums
+    for dt, mkx in ((torch.bool, lambda: torch.tensor([[True, True, False, True], [False, True, False, False]])),
+                    (torch.uint8, lambda: torch.ones(2, 600, dtype=torch.uint8)),
+                    (torch.uint8, lambda: torch.ones(3, 2, 200, dtype=torch.uint8)),
+                    (torch.int8, lambda: torch.full((2, 50), 5, dtype=torch.int8)),
+                    (torch.int32, lambda: torch.tensor([[2 ** 30, 2 ** 30, 5], [1, 2, 3]], dtype=torch.int32)),
+                    (torch.int64, lambda: torch.arange(12).reshape(2, 2, 3))):
+        xi = mkx()
+        ck.case(("s-seb-int", str(dt), tuple(xi.shape)))
+        r = attempt(tu.sum_except_batch, xi)
+        want = xi.to(torch.int64).reshape(xi.shape[0], -1).sum(1)
+        if r[0] != "ok" or r[1].shape != want.shape or not torch.equal(r[1].to(torch.int64), want):
+            ck.finding("sum_except_batch:wrong:integer-input", "%s input of shape %s -> %s, exact row sums %s"
+                       % (dt, list(xi.shape), flat(r[1]) if r[0] == "ok" else r[1:], want.tolist()), {"search": "sum_except_batch-int", "dtype": str(dt), "shape": list(xi.shape)})
     # the caller of the predicates: a batch-dimension count that is not a non-negative int is refused with the documented TypeError
     for k in (0.0, -0.0, 1.0, torch.tensor(0), torch.tensor(1), _np.float64(0), _np.array(1), fractions.Fraction(0), None, "1", -1):
         ck.case(("s-seb-type", repr(k)))
